@@ -1,0 +1,19 @@
+//go:build verif
+
+package blockresults
+
+// C04 (distinct-count equals the number of distinct values, within the sketch
+// error): what is handed to the HyperLogLog for a numeric value is the hash of
+// an injective encoding of that value — its own 64 bits — so that two
+// different integers (also above 2^53) or two different floats are two
+// different sketch inputs.  xxhash and the sketch itself are external.
+// Checked by /verif/bin/govc.  Comment-only file.
+//@ func hllAddRawCval
+//@   props C04
+//@   site call xxhash.Sum64 #1:
+//@     assert [unsigned-hashed-from-its-own-bits] len(arg0) == 8 && le64(arg0) == cval.CVal.(uint64)
+//@   site call xxhash.Sum64 #2:
+//@     assert [signed-hashed-from-its-own-bits] len(arg0) == 8 && le64(arg0) == uint64(cval.CVal.(int64))
+//@   site call xxhash.Sum64 #3:
+//@     assert [float-hashed-from-its-own-bits] len(arg0) == 8 && implies(!isNaN(cval.CVal.(float64)), le64(arg0) == f64bits(cval.CVal.(float64)))
+//@ end
